@@ -129,7 +129,7 @@ func (o *labelOracle) OnWrite(s *Sim, w *Write) {
 	t.Notes[w.Key] = fmt.Sprint(bid)
 	count := 0
 	for k, rr := range t.LastRead {
-		if k.GK != gkPod || !rr.Found {
+		if k.GK != gkPod || !rr.Found || !o.sc.owns(k) {
 			continue
 		}
 		p := rr.Obj.(*corev1.Pod)
